@@ -8,7 +8,7 @@ SRC=/tmp/seed-$1/SEED; LABEL=$2; shift 2
 export CARGO_NET_OFFLINE=true
 D=/verif/seeded/$LABEL; mkdir -p "$D"
 cp "$SRC/patch.diff" "$D/patch.diff"; cp "$SRC/seed_demo.rs" "$D/seed_demo.rs"; cp "$SRC/meta.json" "$D/agent_meta.json" 2>/dev/null
-W=/tmp/take-$LABEL
+W=/tmp/take-work; git -C /repo worktree remove --force "$W" >/dev/null 2>&1; rm -rf "$W"  # constant path: build artefacts are reused instead of piling up
 git -C /repo worktree add --detach "$W" HEAD >/dev/null 2>&1
 mkdir -p "$W/tests"; cp "$D/seed_demo.rs" "$W/tests/seed_demo.rs"
 export CARGO_TARGET_DIR=/tmp/take-target
